@@ -18,25 +18,19 @@ Import ListNotations.
 Local Open Scope N_scope.
 
 (* The text of the foreground spans, line by line, is the visible text split at
-   newlines, one carriage return before a newline dropped.
-   Domain: no CR CR LF in the visible text.  The full statement (without that
-   hypothesis) is FALSE for the code as it stands: when a style change separates
-   the two carriage returns, split_lines drops both (c14_text_two_cr_witness; the
-   recorded finding).  Nothing else is excluded. *)
+   newlines, one carriage return before a newline dropped -- for every input (the
+   two carriage-return corners found while building this check are repaired in the
+   code; c14_text_two_cr_example is the second of them). *)
 Theorem c14_text_preserved :
   forall t input d runs p c,
   extract_next input parser_new capture_default = Some (runs, p, c) -> svg_doc t input = Some d ->
-  svg_has_crcrlf (svg_visible runs) = false ->
   map svg_line_text (svg_fg_lines d) = svg_split_nl_dropping_cr (svg_visible runs).
 Proof. exact svg_text_preserved. Qed.
 
-Theorem c14_text_two_cr_witness :
-  exists input d runs p c,
-    extract_next input parser_new capture_default = Some (runs, p, c) /\ svg_doc svg_term_new input = Some d /\
-    svg_visible runs = [97; 13; 13; 10; 98] /\
-    map svg_line_text (svg_fg_lines d) = [[97]; [98]] /\
-    svg_split_nl_dropping_cr (svg_visible runs) = [[97; 13]; [98]].
-Proof. exact svg_text_crcrlf_witness. Qed.
+Theorem c14_text_two_cr_example :
+  exists d, svg_doc svg_term_new [97; 13; 27; 91; 51; 49; 109; 13; 10; 98] = Some d /\
+    map svg_line_text (svg_fg_lines d) = [[97; 13]; [98]].
+Proof. exact svg_text_two_cr_example. Qed.
 
 (* Every colour class on any span (foreground or background row) is the name of a
    colour, and the style sheet defines it with the RGB value the configured palette
@@ -80,14 +74,12 @@ Theorem c14_classes_denote_style :
 Proof. exact svg_classes_denote_style. Qed.
 
 (* The canvas height is line_height for every line plus the padding on both sides,
-   and (on the domain of c14_text_preserved) there are as many lines as the visible
-   text has. *)
+   and there are as many lines as the visible text has. *)
 Theorem c14_height_counts_lines :
   forall t input d runs p c,
   extract_next input parser_new capture_default = Some (runs, p, c) -> svg_doc t input = Some d ->
   svg_d_height d = N.of_nat (length (svg_d_lines d)) * svg_line_height + svg_padding * 2
-  /\ (svg_has_crcrlf (svg_visible runs) = false ->
-      length (svg_d_lines d) = length (svg_split_nl_dropping_cr (svg_visible runs))).
+  /\ length (svg_d_lines d) = length (svg_split_nl_dropping_cr (svg_visible runs)).
 Proof. exact svg_height_counts_lines. Qed.
 
 (* encode_text: undone by replacing the three references; the escaped text has no
@@ -96,14 +88,16 @@ Theorem c14_escape_roundtrip :
   forall t, xml_unescape (svg_encode_text t) = t /\ ~ In 60 (svg_encode_text t) /\ XEscaped (svg_encode_text t).
 Proof. exact (fun t => conj (svg_escape_roundtrip t) (conj (svg_encoded_no_lt t) (svg_encoded_escaped t))). Qed.
 
-(* What an XML processor hands over for the escaped text (end-of-line
-   normalisation, XML 1.0 section 2.11, then the references) is the text itself
-   exactly when it holds no carriage return; with one it is not (the recorded
-   finding: a CR that is not dropped by split_lines reaches the reader as LF). *)
+(* The text of a foreground span as written (encode_text, then every CR as the
+   reference &#13;): what an XML processor hands over for it (end-of-line
+   normalisation, XML 1.0 section 2.11, then the references) is the text itself,
+   for EVERY text; it has no '<', no literal CR and no '&' outside the four
+   references.  Without the reference a CR would come back as LF (second part). *)
 Theorem c14_parsed_text_roundtrip :
-  (forall t, ~ In 13 t -> xml_text_value (svg_encode_text t) = t)
+  (forall t, xml_text_value (svg_encode_fg t) = t
+             /\ XEscaped (svg_encode_fg t) /\ ~ In 60 (svg_encode_fg t) /\ ~ In 13 (svg_encode_fg t))
   /\ xml_text_value (svg_encode_text [97; 13; 98]) = [97; 10; 98].
-Proof. exact (conj svg_parsed_text_roundtrip svg_parsed_text_cr_witness). Qed.
+Proof. exact (conj (fun t => conj (svg_parsed_text_roundtrip t) (svg_fg_escaped t)) svg_parsed_text_cr_witness). Qed.
 
 (* The template is well-formed for every document whose span texts are XML
    characters, whose class names are name characters and whose colour values are
